@@ -66,7 +66,8 @@ def _apply_rewrites(text, rewrites, what, log):
         elif (count is None and found < 1) or (count is not None and found != count):
             raise LostAnchor("%s: rewrite anchor %r found %d times, expected %s" % (what, old[:60], found, count if count is not None else ">=1"))
         text = re.sub(old, new, text) if is_re else text.replace(old, new)
-        log.append("%s: %r -> %r (x%d)" % (what, old[:70], new[:70], found))
+        # a regex rewrite may compute its replacement (a function of the match); it is then described by its docstring
+        log.append("%s: %r -> %r (x%d)" % (what, old[:70], (new.__doc__ or "computed replacement").strip()[:160] if callable(new) else new[:70], found))
     return text
 
 
